@@ -201,6 +201,13 @@ func runC19(c *core.Ctx) *core.Outcome {
 		return id
 	})
 	o.Faults["schedule_switch"] += switches
+	for _, s := range ss {
+		for i, st := range s.conc {
+			if st.Fresh && i > 0 {
+				o.Faults["restart"]++
+			}
+		}
+	}
 	var sb strings.Builder
 	for _, id := range sc.Trace {
 		fmt.Fprintf(&sb, "%x", id)
